@@ -42,6 +42,9 @@ func (e *Engine) runPath(s *State, work *[]*State, probe *probeRec) {
 			switch x := r.(type) {
 			case pathEnd:
 				// a Go runtime panic on this path (refusal)
+				if os.Getenv("GOVC_DEBUG") != "" {
+					fmt.Fprintf(os.Stderr, "path ends (probe=%v): %s in %s\n", probe != nil, x.why, s.top().fn.Name())
+				}
 				e.panicPath(s, probe, "runtime panic: "+x.why, token.NoPos)
 			default:
 				panic(r)
@@ -544,6 +547,8 @@ func (e *Engine) step(s *State, f *Frame, in ssa.Instruction, work *[]*State, pr
 		// only the mutex idiom is accepted
 		if callee := x.Call.StaticCallee(); callee != nil && strings.Contains(callee.String(), "sync.Mutex") {
 			e.note("sync.Mutex lock/unlock dropped: sequential execution assumed")
+		} else if callee := x.Call.StaticCallee(); callee != nil && strings.HasSuffix(callee.String(), "os.File).Close") {
+			e.note("deferred (*os.File).Close dropped: no effect on the modelled state")
 		} else {
 			panic(execError{"unsupported defer at " + e.posOf(x.Pos())})
 		}
@@ -603,6 +608,10 @@ func (e *Engine) indexAddr(s *State, f *Frame, x *ssa.IndexAddr, probe *probeRec
 	case VSlice:
 		e.boundsCheck(s, idx, b.Len, x.Pos(), probe)
 		if b.Obj == nil {
+			if b.Pure != nil && b.Home != nil {
+				// element of an inline slice: its address extends the address of the slice
+				return VPtr{Obj: b.Home.Obj, Path: append(append([]PathElem(nil), b.Home.Path...), PathElem{Field: -1, Index: Add(b.Off, idx)})}
+			}
 			if b.Pure != nil {
 				v, ok := b.Pure.at(Add(b.Off, idx))
 				if !ok {
@@ -1043,7 +1052,20 @@ func (e *Engine) makeInterface(s *State, f *Frame, x *ssa.MakeInterface) Value {
 			if y.Obj == nil {
 				return VIface{Dyn: xt, V: VPtr{}}
 			}
-			return VIface{Dyn: xt, V: VInt{asInt(e.load(s, y, x.Pos()))}}
+			val := asInt(e.load(s, y, x.Pos()))
+			if e.curC != nil && e.curC.Flags["bigint-boxing"] {
+				// option encoding of a possibly-nil *big.Int boxed in an interface: 2*value, or 1 for nil
+				// (read back only through the contract functions bigval / nilbig)
+				enc := Mul(Int64C(2), val)
+				if y.Valid != nil {
+					enc = Ite(y.Valid, enc, Int64C(1))
+				}
+				return VIface{Dyn: xt, V: VInt{enc}}
+			}
+			if y.Valid != nil {
+				e.note("a possibly-nil *big.Int is boxed into an interface: only its value on success is tracked")
+			}
+			return VIface{Dyn: xt, V: VInt{val}}
 		}
 	case VBigRef:
 		return VIface{Dyn: xt, V: VInt{y.T}}
